@@ -13,7 +13,6 @@ var NotApplicable = map[string]string{
 	"C12": "not claimed yet: the parser's character-class forking over fully symbolic strings is being built (see DESIGN.md section 7)",
 	"C13": "not claimed yet: layout reference for %e/%f/%g under construction (see DESIGN.md section 7)",
 	"C15": "not claimed: SetFloat/Float/Float32/Float64 compute inside math/big.Float, whose numeric code is not encoded, and SetFloat64's scaling by a 2**n Decimal needs pow2's precision-limited products; symbolic float64 arithmetic is outside the solvers' reach here (DESIGN.md sections 3 and 7)",
-	"C18": "not claimed yet: the write-confinement / pool-discipline mode of the executor (DESIGN.md 5, C18) is under construction; schedules are not enumerable by this technique",
 }
 
 const defaultTechnique = "bounded symbolic execution of go/ssa (own executor gosym: concrete shapes, symbolic scalars) + SMT (z3, Int encoding with explicit wrap-around); counterexamples replayed natively on both builds"
